@@ -1241,7 +1241,7 @@ fn main() {
     "dotted leaf paths are generated only outside any Nested scope; nested arrays never contain null entries; Nested paths are single names relative to the enclosing scope".into(),
     "a bool.filter list with several members is used only when no two members are Nested clauses on the same path".into(),
   ];
-  let n = ctx.n(400, 20000);
+  let n = ctx.n(1200, 20000);
   let quick = ctx.quick();
   ctx.run_cases("flt", n, |rng: &mut Rng, l: &mut Local, scratch| {
     let sch = gen_schema(rng);
@@ -1377,7 +1377,10 @@ fn main() {
           let dir_s = if has { "engine-accepts" } else { "engine-rejects" };
           let mut sig = format!("unclassified:{dir_s}:{shape}");
           let mut why = Value::Null;
-          if !matches!(alone, Some(o) if o.engine == has && o.oracle == want) {
+          if alone.is_none() {
+            sig = format!("unclassified:single-document-reindex-failed:{dir_s}");
+          } else if !matches!(alone, Some(o) if o.engine == has && o.oracle == want) {
+            // the same document alone in a fresh index is judged differently by the engine
             sig = format!("verdict-depends-on-corpus:{dir_s}");
           } else if cand_known {
             probe.budget.set(probe.budget.get().max(0) + 60);
